@@ -99,22 +99,46 @@ RECURSIVE MergedSel(_)
 MergedSel(fs) == IF fs = <<>> THEN <<>> ELSE Head(fs).sel \o MergedSel(Tail(fs))
 
 \* ---- arguments ---------------------------------------------------------------
-\* CoerceArgumentValues for the first field of a group: -> [ok, args: Seq(<<name, value>>) in definition order]
+\* coercion of an argument literal that may contain variables (lists of literals / variables):
+\* -> [ok, v]; a missing variable inside a list becomes null (and is invalid at a non-null item position)
+\* wd = the variables whose definition has a default value: validation admits such a (nullable) variable at a non-null
+\* position, and the specification defers the null check to run time
+RECURSIVE CoerceLit(_, _, _, _)
+CoerceLit(lit, ty, vals, wd) ==
+  IF lit.t = "var" THEN
+     (IF lit.n \in DOMAIN vals THEN [ok |-> ~(IsNN(ty) /\ vals[lit.n] = Null), v |-> vals[lit.n], legit |-> lit.n \in wd]
+      ELSE [ok |-> ~IsNN(ty), v |-> Null, legit |-> lit.n \in wd])
+  ELSE IF IsNN(ty) THEN LET r == CoerceLit(lit, ty[2], vals, wd) IN [ok |-> r.ok /\ r.v # Null, v |-> r.v, legit |-> r.legit /\ lit.t = "var"]
+  ELSE IF lit = Null THEN [ok |-> TRUE, v |-> Null, legit |-> TRUE]
+  ELSE IF IsL(ty) THEN
+       (IF lit.t = "l"
+        THEN LET rs == [k \in 1..Len(lit.v) |-> CoerceLit(lit.v[k], ty[2], vals, wd)] IN
+             [ok |-> \A k \in 1..Len(rs) : rs[k].ok, v |-> [t |-> "l", v |-> [k \in 1..Len(rs) |-> rs[k].v]],
+              legit |-> \A k \in 1..Len(rs) : rs[k].ok \/ rs[k].legit]
+        ELSE LET r == CoerceLit(lit, ty[2], vals, wd) IN [ok |-> r.ok, v |-> [t |-> "l", v |-> <<r.v>>], legit |-> r.legit])
+  ELSE [ok |-> TRUE, v |-> lit, legit |-> TRUE]
+
+\* CoerceArgumentValues for the first field of a group:
+\* -> [ok, args: Seq(<<name, value>>) in definition order, legit]
+\* legit: the failure is the one the specification defers to run time - a variable given as the whole argument
+\* value is null / absent at a non-null argument (validation allows that position only because a default exists)
 ArgGiven(field, n) == \E k \in 1..Len(field.args) : field.args[k][1] = n
 ArgOf(field, n) == field.args[CHOOSE k \in 1..Len(field.args) : field.args[k][1] = n][2]
-RECURSIVE CoerceArgs(_, _, _, _)
-CoerceArgs(defs, field, vals, acc) ==
-  IF defs = <<>> THEN [ok |-> TRUE, args |-> acc]
+RECURSIVE CoerceArgs(_, _, _, _, _)
+CoerceArgs(defs, field, vals, wd, acc) ==
+  IF defs = <<>> THEN [ok |-> TRUE, args |-> acc, legit |-> TRUE]
   ELSE LET d == Head(defs)
            given == ArgGiven(field, d.name)
            a == IF given THEN ArgOf(field, d.name) ELSE Null
            isVar == given /\ a.t = "var"
            hasValue == IF isVar THEN a.n \in DOMAIN vals ELSE given
-           value == IF isVar THEN (IF hasValue THEN vals[a.n] ELSE Null) ELSE a
-       IN IF ~hasValue /\ d.hasDefault THEN CoerceArgs(Tail(defs), field, vals, Append(acc, <<d.name, d.default>>))
-          ELSE IF IsNN(d.type) /\ (~hasValue \/ value = Null) THEN [ok |-> FALSE, args |-> acc]
-          ELSE IF hasValue THEN CoerceArgs(Tail(defs), field, vals, Append(acc, <<d.name, value>>))
-          ELSE CoerceArgs(Tail(defs), field, vals, acc)
+           cl == IF given /\ ~isVar THEN CoerceLit(a, d.type, vals, wd) ELSE [ok |-> TRUE, v |-> Null, legit |-> TRUE]
+           value == IF isVar THEN (IF hasValue THEN vals[a.n] ELSE Null) ELSE cl.v
+       IN IF ~hasValue /\ d.hasDefault THEN CoerceArgs(Tail(defs), field, vals, wd, Append(acc, <<d.name, d.default>>))
+          ELSE IF IsNN(d.type) /\ (~hasValue \/ value = Null) THEN [ok |-> FALSE, args |-> acc, legit |-> isVar /\ (d.hasDefault \/ a.n \in wd)]
+          ELSE IF given /\ ~isVar /\ ~cl.ok THEN [ok |-> FALSE, args |-> acc, legit |-> cl.legit]
+          ELSE IF hasValue THEN CoerceArgs(Tail(defs), field, vals, wd, Append(acc, <<d.name, value>>))
+          ELSE CoerceArgs(Tail(defs), field, vals, wd, acc)
 
 \* ---- execution ------------------------------------------------------------
 \* results: [raised, v, at, errs, calls]
@@ -132,9 +156,10 @@ ExecField(R, objType, obj, fs, path, errs, calls) ==
   IF name = "__typename" THEN Val([t |-> "s", v |-> objType], errs, calls)
   ELSE LET fd == R.schema.types[objType].fields[name]
            ty == fd.type
-           ca == CoerceArgs(fd.args, fs[1], R.vals, <<>>)
+           ca == CoerceArgs(fd.args, fs[1], R.vals, R.wd, <<>>)
        IN IF ~ca.ok
-          THEN (IF IsNN(ty) THEN Raise(path, errs, calls) ELSE Val(Null, Append(errs, path), calls))    \* argument coercion failed: field error, resolver not called
+          THEN LET calls1 == Append(calls, [path |-> path, args |-> <<>>, failed |-> TRUE, legit |-> ca.legit]) IN   \* no resolver call: a marker instead
+               (IF IsNN(ty) THEN Raise(path, errs, calls1) ELSE Val(Null, Append(errs, path), calls1))    \* argument coercion failed: field error
           ELSE LET calls2 == Append(calls, [path |-> path, args |-> ca.args])
                    oc == obj.f[name]
                    r  == IF oc.t = "err" THEN Raise(path, errs, calls2) ELSE Complete(R, ty, fs, oc, path, errs, calls2)
@@ -180,7 +205,8 @@ Complete(R, ty, fs, oc, path, errs, calls) ==
 Execute(R0) ==
   LET cv == CoerceVars(R0.doc.vardefs, R0.vars, <<>>) IN
   IF ~cv.ok THEN [data |-> [t |-> "absent"], errors |-> <<>>, calls |-> <<>>, requestError |-> TRUE]
-  ELSE LET R == [schema |-> R0.schema, doc |-> R0.doc, vals |-> cv.vals]
+  ELSE LET R == [schema |-> R0.schema, doc |-> R0.doc, vals |-> cv.vals,
+                    wd |-> {R0.doc.vardefs[k].name : k \in {j \in 1..Len(R0.doc.vardefs) : R0.doc.vardefs[j].hasDefault}}]
            fl == Collect(R, R0.doc.sel, R0.schema.query)
            r  == ExecSel(R, R0.schema.query, R0.root, fl, Keys(fl, {}), <<>>, [kv |-> <<>>, errs |-> <<>>, calls |-> <<>>])
        IN IF r.raised THEN [data |-> Null, errors |-> Append(r.errs, r.at), calls |-> r.calls, requestError |-> FALSE]
